@@ -197,6 +197,31 @@ def _check_on(S, case, first):
             classes.add("start-matches")
         if exp is None:
             classes.add("no-match")
+    # ---- a start vertex OUTSIDE the universe, and an empty universe: whatever the traversal does (it raises
+    #      ValueError, or lists nothing), the search does the same - in particular it does not hand back the start
+    if first and S.uni is not None and n <= 40:
+        from edgegraph.structure import Universe
+
+        def outcome(fn):
+            try:
+                return ("ok", fn())
+            except RecursionError:
+                raise
+            except Exception as e:  # noqa
+                return ("raise", type(e).__name__)
+
+        outsiders = [v for i, v in enumerate(S.vs) if i not in S.mem]
+        probes = [(S.uni, o, "start outside the universe") for o in outsiders[:2]] + [(Universe(), S.vs[S.start], "empty universe")]
+        for uni2, st_, what in probes:
+            for sname, sfn, tfn in (("bfs", B.bfs, B.bft), ("dfs_recursive", D.dfs_recursive, D.dft_recursive), ("dfs_iterative", D.dfs_iterative, D.dft_iterative)):
+                t_out = outcome(lambda: tfn(uni2, st_))
+                s_out = outcome(lambda: sfn(uni2, st_, an, sought))
+                if t_out[0] == "raise":
+                    require(s_out == t_out, "search-vs-traversal-on-invalid-start", f"{sname} ({what}): the traversal raises {t_out[1]}, the search {'returned ' + repr(s_out[1]) if s_out[0] == 'ok' else 'raises ' + s_out[1]}")
+                else:
+                    exp2 = next((x for x in t_out[1] if matches(x)), None)
+                    require(s_out == ("ok", exp2), "search-vs-traversal-on-invalid-start", f"{sname} ({what}): the traversal lists {S.idx(list(t_out[1]))}, the search gave {s_out}")
+        classes.add("start-outside-universe/empty-universe")
     classes.add("attr-" + an)
     classes.add("caching-on" if t.get("cache") else "caching-off")
     if sought is None:
